@@ -313,8 +313,101 @@ func upgCloseScenario(name string, closeAt int, discard bool, buffered int, pend
 	}}
 }
 
+// (5) C07 / C12: a session that is closing gracefully with data buffered and a silent peer ends at the heartbeat deadline
+func beatCloseScenario(name string, closeAfterPing bool, proto int) Scenario {
+	return Scenario{Name: name, Run: func(t *testing.T, rec *Rec, g *Gates) {
+		cfg := EngCfg{PI: 300 * time.Millisecond, PT: 200 * time.Millisecond, EIO3: true}
+		w := newEngWorld(t, rec, g, cfg)
+		sc := &Script{w: w, r: rand.New(rand.NewSource(1)), cfg: cfg, W: map[string]int{}}
+		s, _ := w.Handshake(proto, false, false, ReqOpt{})
+		c := &cliSess{S: s, Kind: "polling"}
+		sc.ss = append(sc.ss, c)
+		sc.settle()
+		if s.Sid == "" {
+			w.Finish()
+			return
+		}
+		if closeAfterPing {
+			sc.doPoll(c) // the ping goes out on this poll; the client then falls silent
+			sc.settle()
+			w.g.Sleep(cfg.PI + 100*time.Millisecond)
+		} else {
+			w.g.Sleep(100 * time.Millisecond)
+		}
+		sc.settle()
+		w.Send(s.Sid, SendOpt{Size: 5}) // no poll pending: stays buffered
+		w.Close(s.Sid, false)           // waits for a drain that never comes
+		sc.settle()
+		w.g.Sleep(2 * (cfg.PI + cfg.PT))
+		sc.settle()
+		w.Expect(s.Sid, "closed")
+		w.Snapshot()
+		w.Finish()
+	}}
+}
+
+// (6) C18: a batch carrying two callbacks; the first callback sends another message with a callback and takes its time
+func cbOrderScenario(name, kind string) Scenario {
+	return Scenario{Name: name, Run: func(t *testing.T, rec *Rec, g *Gates) {
+		cfg := EngCfg{PI: 25 * time.Second, PT: 20 * time.Second}
+		d := newDirect(t, rec, g, cfg, kind)
+		if d.sid == "" {
+			d.w.Finish()
+			return
+		}
+		w, sc, c := d.w, d.sc, d.c
+		fired := false
+		w.Hook("cb", func(sid string, _ ...any) {
+			if fired {
+				return
+			}
+			fired = true
+			w.Send(sid, SendOpt{Size: 5, Cb: true})
+		})
+		writer := "ws.send.enter"
+		if kind == "polling" {
+			writer = "polling.send.enter"
+		}
+		g.Park(writer, true)
+		if kind == "websocket" {
+			go w.Send(d.sid, SendOpt{Size: 4}) // occupies the transport
+			sc.settle()
+		}
+		go w.Send(d.sid, SendOpt{Size: 4, Cb: true})
+		sc.settle()
+		go w.Send(d.sid, SendOpt{Size: 4, Cb: true})
+		sc.settle()
+		g.Park("L.cb", true)
+		if kind == "polling" {
+			sc.doPoll(c)
+			sc.settle()
+		}
+		for i := 0; i < 6; i++ { // let the writers go one by one; the first callback parks, whatever else can run runs
+			g.Release(writer)
+			sc.settle()
+			if kind == "polling" && c.poll == nil {
+				sc.doPoll(c)
+				sc.settle()
+			}
+		}
+		g.Park("L.cb", false)
+		g.Park(writer, false)
+		g.ReleaseAll()
+		sc.settle()
+		d.finish()
+	}}
+}
+
 func directFamily() []Scenario {
 	var out []Scenario
+	for _, kind := range []string{"websocket", "polling"} {
+		out = append(out, cbOrderScenario("cborder_"+kind, kind))
+	}
+	for _, after := range []bool{false, true} {
+		for _, proto := range []int{4, 3} {
+			out = append(out, beatCloseScenario(fmt.Sprintf("beatclose_after%v_v%d", after, proto), after, proto))
+		}
+	}
 	for _, kind := range []string{"polling", "websocket"} {
 		for _, point := range closePoints {
 			for _, cause := range closeCauses {
